@@ -11,7 +11,7 @@ C09.c  definite initialisation of every scalar member of every record of the ins
 C09.d  failure priority (shares C08.d).
 C09.e  [must-write] the per-cycle status accumulators are reset on every path through update()/react() after the plan step.
 """
-from lint import facts, ir, effects, anchors, loops, records, cfg as cfgmod
+from lint import inline, facts, ir, effects, anchors, loops, records, cfg as cfgmod
 from rules.c01 import who_may_call, tk_short
 from rules import c08
 from lint.common import AnalysisBroken
@@ -21,6 +21,7 @@ LEVEL = 'other'
 
 def outcome_rules(run, F, E):
     for fn in F.find('FullControlT', 'updatePlan'):
+        fn = inline.inlined(F, E, fn)      # private helpers extracted from the body are looked through
         label = 'payload' if not (fn.cls or '').rstrip('> ').endswith('void') else 'void'
         c = cfgmod.cfg_of(fn)
         failed = c.events(('call',), lambda n: n.e.get('m') == 'wrapPlanFailed')
@@ -165,6 +166,11 @@ def plan_exists(run, F, E):
         if direct:
             t = tk_short(fn)
             ok = (t in {('PlanT', 'append'), ('PayloadPlanT', 'append')} and direct == [1]) or (t == ('PlanDataT', 'clear') and direct == [0])
+            if not ok and (anchors.is_internal_helper(F, fn) or (fn.cls is None and (fn.qn or '').startswith('ffsm2::detail::'))):
+                # a helper (non-public member, or a free function of namespace detail) that sets the flag on behalf of append, or
+                # resets it on behalf of PlanDataT::clear: everything that can call it is that expected writer
+                who = {('PlanT', 'append'), ('PayloadPlanT', 'append')} if direct == [1] else {('PlanDataT', 'clear')} if direct == [0] else set()
+                ok = bool(who) and not anchors.reached_only_from(F, E, fn, who) and bool(E.callers().get(fn.id))
             run.ob('C09.b', '%s writes planExists := %s' % (fn.short, direct), ok, where=fn.pat, key='%s writes planExists unexpectedly' % fn.short)
     for rec in F.recs('PlanDataT'):
         f = [x for x in rec['fields'] if x['n'] == 'planExists']
